@@ -7,7 +7,7 @@ from fractions import Fraction
 from ..absint import FuncV, Interp, ObjV, State
 from ..effects import Effects
 from ..forms import Const, Form, SliceV, TupleV, fpow, mk_fn
-from ..rules import S, GuardEval, find_raise_guards, names_in
+from ..rules import S, GuardEval, find_raise_guards, names_in, check_late_binding
 from ..srcmodel import src_of
 
 EXPLANATION = (
@@ -222,6 +222,7 @@ def run(ctx):
             else:
                 okc = okc and first == D
             ctx.check("C12.6", okc, f, f.node, f"{f.qualname}: {kind} input funnelled to one boolean array", "same code path after conversion", f"{kind} input is not converted to the shared boolean array form")
+    check_late_binding(ctx, "C12.7", ["ppm.PPM_ENCODER", "ppm.PPM_DECODER", "ppm.HDD", "ppm.SDD"])
     ctx.require_min("C12.1", 4)
     ctx.require_min("C12.2", 1)
     ctx.require_min("C12.3", 1)
